@@ -1,6 +1,7 @@
 package gen
 
 import (
+	"google.golang.org/protobuf/encoding/protowire"
 	"fmt"
 	"strings"
 
@@ -388,6 +389,13 @@ func Corpus(tier string, embedded []*Schema) []*Schema {
 		bo := bt.oneof("has")
 		bt.member(bo, "clear", 3, tBool, "")
 		fb.MessageType = append(fb.MessageType, bt.msg)
+		// oneof / map / list members whose message type lives in the other package while a same-named local type exists
+		ho := bm.oneof("sel")
+		bm.member(ho, "remote", 3, tMessage, am.path)
+		bm.member(ho, "local", 4, tMessage, bt.path)
+		bm.mapField("remote_by_id", 5, tInt64, tMessage, am.path)
+		bm.mapField("local_by_id", 6, tInt64, tMessage, bt.path)
+		bm.repeated("locals", 7, tMessage, bt.path)
 		// and two files of the SAME Go package, one importing the other (init chaining within a package)
 		fc := file("vc/samename/three.proto", "vc.samename.two", goPkg("samename", "two/types"), "vc/samename/two.proto")
 		cm := newMsg("vc.samename.two", "Outer")
@@ -642,6 +650,96 @@ func Corpus(tier string, embedded []*Schema) []*Schema {
 		m.member(o, "l", 5, tEnum, "."+pkg+".m.Local")
 		fm.MessageType = append(fm.MessageType, m.msg)
 		add(&Schema{Name: "enumonly", Files: []*descriptorpb.FileDescriptorProto{fe, fs, fm}})
+	}
+
+	// ---- a file that declares custom options (extensions of the descriptor option messages), alternating extendees,
+	// scalar / enum / message / repeated extension types, and a second file that uses them
+	{
+		pkg := "vc.exts"
+		f := file("vc/exts/opts.proto", pkg, goPkg("exts", "optpb"), "google/protobuf/descriptor.proto")
+		mk := newMsg(pkg, "Marker")
+		mk.field("note", 1, tString, "")
+		f.MessageType = append(f.MessageType, mk.msg)
+		f.EnumType = append(f.EnumType, enum("Level", "LEVEL_NONE", 0, "LEVEL_SOME", 1))
+		ext := func(name string, num int32, t T, typeName, extendee string, rep bool) {
+			x := &descriptorpb.FieldDescriptorProto{Name: proto.String(name), Number: proto.Int32(num), Type: t.Enum(),
+				Label: descriptorpb.FieldDescriptorProto_LABEL_OPTIONAL.Enum(), JsonName: proto.String(jsonName(name)), Extendee: proto.String(".google.protobuf." + extendee)}
+			if rep {
+				x.Label = descriptorpb.FieldDescriptorProto_LABEL_REPEATED.Enum()
+			}
+			if typeName != "" {
+				x.TypeName = proto.String(typeName)
+			}
+			f.Extension = append(f.Extension, x)
+		}
+		ext("msg_a", 50001, tString, "", "MessageOptions", false)
+		ext("fld_b", 50002, tString, "", "FieldOptions", false)
+		ext("msg_c", 50003, tMessage, mk.path, "MessageOptions", false)
+		ext("file_d", 50004, tEnum, "."+pkg+".Level", "FileOptions", false)
+		ext("fld_e", 50005, tInt64, "", "FieldOptions", true)
+		ext("msg_f", 50006, tBool, "", "MessageOptions", false)
+		ext("enum_g", 50007, tBytes, "", "EnumOptions", false)
+		// a user of the options, in another Go package
+		f2 := file("vc/exts/use.proto", pkg+".use", goPkg("exts", "use"), "vc/exts/opts.proto")
+		u := newMsg(pkg+".use", "Tagged")
+		fd := u.field("v", 1, tString, "")
+		fo := &descriptorpb.FieldOptions{}
+		fo.ProtoReflect().SetUnknown(protowire.AppendString(protowire.AppendTag(nil, 50002, protowire.BytesType), "on-field"))
+		fd.Options = fo
+		mo := &descriptorpb.MessageOptions{}
+		mo.ProtoReflect().SetUnknown(protowire.AppendVarint(protowire.AppendTag(protowire.AppendString(protowire.AppendTag(nil, 50001, protowire.BytesType), "on-message"), 50006, protowire.VarintType), 1))
+		u.msg.Options = mo
+		f2.MessageType = append(f2.MessageType, u.msg)
+		add(&Schema{Name: "exts", Files: []*descriptorpb.FileDescriptorProto{f, f2}})
+	}
+
+	// ---- imported Go packages named like the packages generated code itself imports (fmt, math, sort, io, ...):
+	// every reference the templates emit must go through the import table, never through a literal package name
+	{
+		var files []*descriptorpb.FileDescriptorProto
+		mainPkg := "vc.pkgnames"
+		var deps []string
+		type ref struct{ path string }
+		var refs []ref
+		for _, n := range []string{"fmt", "math", "sort", "io", "runtime", "proto", "protoreflect", "protoiface", "protoimpl", "sync", "binary", "bits", "utf8", "reflect", "errors", "strings"} {
+			pkg := "vc.pkgnames." + n + "pkg"
+			f := file("vc/pkgnames/"+n+".proto", pkg, goPkg("pkgnames", n))
+			m := newMsg(pkg, "T")
+			m.field("v", 1, tString, "")
+			f.MessageType = append(f.MessageType, m.msg)
+			f.EnumType = append(f.EnumType, enum("E", "E_ZERO", 0, "E_ONE", 1))
+			files = append(files, f)
+			deps = append(deps, f.GetName())
+			refs = append(refs, ref{m.path})
+		}
+		fm := file("vc/pkgnames/main.proto", mainPkg, goPkg("pkgnames", ""), deps...)
+		first := newMsg(mainPkg, "First")
+		for i, r := range refs {
+			first.field(fmt.Sprintf("t%d", i), int32(i+1), tMessage, r.path)
+		}
+		// list and map views are emitted before the accessors of the message: their element types are the first
+		// references to the imported packages
+		for i, r := range refs {
+			first.repeated(fmt.Sprintf("l%d", i), int32(100+i), tMessage, r.path)
+			first.mapField(fmt.Sprintf("m%d", i), int32(200+i), tString, tMessage, r.path)
+		}
+		second := newMsg(mainPkg, "Second")
+		second.mapField("weights", 1, tString, tDouble, "")
+		second.mapField("ratios", 2, tInt32, tFloat, "")
+		second.field("d", 3, tDouble, "")
+		second.field("f", 4, tFloat, "")
+		second.repeated("ds", 5, tDouble, "")
+		second.field("fx32", 6, tFixed32, "")
+		second.field("fx64", 7, tSfixed64, "")
+		second.field("s", 8, tString, "")
+		second.mapField("by_name", 9, tString, tMessage, refs[0].path)
+		o := second.oneof("pick")
+		second.member(o, "od", 10, tDouble, "")
+		second.member(o, "om", 11, tMessage, refs[1].path)
+		second.field("e", 12, tEnum, ".vc.pkgnames.sortpkg.E")
+		fm.MessageType = append(fm.MessageType, first.msg, second.msg)
+		files = append(files, fm)
+		add(&Schema{Name: "pkgnames", Files: files})
 	}
 
 	// ---- requests that must not produce code
